@@ -69,8 +69,8 @@ def gen_case(rng, tier):
     shape = (rng.randint(2, 4), rng.randint(2, 4))
     route = rng.choice(('none', 'pupil', 'image', 'none-pupil', 'pupil-prop'))
     lam = Fr(1, 128)
-    pxs = [None, (Fr(1, 2), Fr(1, 2)), (Fr(1, 2), Fr(1, 4))]
-    wpx = rng.choice(pxs[:2]) if route != 'pupil-prop' else None
+    pxs = [None, (Fr(1, 2), Fr(1, 2)), (Fr(1, 2), Fr(1, 4)), (Fr(5, 10 ** 6), Fr(5, 10 ** 6))]      # incl. micron-scale sampling
+    wpx = rng.choice((pxs[0], pxs[1], pxs[3])) if route != 'pupil-prop' else None
     conflict = rng.random() < 0.12 and route != 'pupil-prop'
     allow_single = rng.random() < 0.05
     seq = {'none': ['Plane', 'Plane'], 'pupil': ['Pupil', 'Pupil', 'Pupil'], 'image': ['Image', 'Image'],
@@ -83,7 +83,8 @@ def gen_case(rng, tier):
         if route == 'pupil-prop':
             px = (Fr(1, 2), Fr(1, 2))
         elif conflict and i == len(seq) - 1 and cur_px is not None:
-            px = (cur_px[0] * 2, cur_px[1])             # inconsistent with what the wavefront carries: must be refused
+            # inconsistent with what the wavefront carries (grossly, or by a fraction of a per cent): must be refused
+            px = rng.choice(((cur_px[0] * 2, cur_px[1]), (cur_px[0], cur_px[1] * Fr(1001, 1000)), (cur_px[0] * Fr(501, 500), cur_px[1])))
         else:
             px = rng.choice((None, cur_px)) if cur_px is not None else rng.choice(pxs)
         st, sgl = rand_plane(rng, N, shape, cls, px, Fr(rng.choice((2, 4))) if cls == 'Pupil' else None, allow_single, need_shape=(route == 'pupil-prop'))
@@ -154,7 +155,7 @@ def check(ctx, lentil, c, spec, rng):
                 w = w2
             else:
                 du = (float(ox.rf(st['du'][0])), float(ox.rf(st['du'][1])))
-                w = lentil.propagate_dft(w, pixelscale=du, shape=tuple(st['shape']), oversample=st['os'])
+                w = lentil.propagate_dft(w, pixelscale=du, shape=tuple(st['shape']), prop_shape=tuple(st['pshape']), oversample=st['os'])
             ro = ox.observe_real(w)
         except Exception as ex:
             ro = {'err': type(ex).__name__, 'msg': repr(ex)[:200]}
@@ -191,11 +192,53 @@ def check(ctx, lentil, c, spec, rng):
             ctx.violations[i] = (dict(sg, single_sample_bbox=True), d, cs)
 
 
+def reuse_checks(ctx, lentil, rng):
+    """the SAME plane object is applied, its OPD / amplitude array is then written in place by the caller, and it is applied
+    again at the same wavelength: the second product must be the pointwise phasor of the plane as it is NOW"""
+    N = 16
+    lam = Fr(1, 128)
+    pairs = []
+    for k in range(40 if ctx.tier == 'quick' else 300):
+        m, n = rng.randint(2, 4), rng.randint(2, 4)
+        amp = np.array([[rng.choice((1, 2, 3)) for _ in range(n)] for _ in range(m)])
+        opd0 = np.array([[rng.randrange(N) for _ in range(n)] for _ in range(m)])
+        d = np.array([[rng.randrange(1, N) for _ in range(n)] for _ in range(m)])
+        amp2 = amp + (1 if k % 2 else 0)
+        cls = rng.choice(('Plane', 'Pupil', 'Image'))
+        c0 = dict(N=N, wf=ox.wf(lam), steps=[ox.plane(cls, amp=amp, opd=opd0, z=Fr(4) if cls == 'Pupil' else None)], thm='none')
+        c1 = dict(N=N, wf=ox.wf(lam), steps=[ox.plane(cls, amp=amp2, opd=opd0 + d, z=Fr(4) if cls == 'Pupil' else None)], thm='none')
+        pairs.append((c0, c1, d, amp2 - amp))
+    flat = [c for p in pairs for c in p[:2]]
+    for i, c in enumerate(flat):
+        c['id'] = i
+    spec, results = ox.eval_spec(flat)
+    for n_, res in results:
+        ctx.add_tlc(res, f'MC_Optics (plane reuse) ring N={n_}')
+    unit = float(lam) / N
+    for c0, c1, d, da in pairs:
+        p = ox._plane_obj(lentil, c0['steps'][0], lam, N)
+        w = lentil.Wavefront(float(lam))
+        f0 = (w * p).field
+        p.opd[...] = p.opd + d * unit                # the caller writes into the arrays the plane holds
+        p.amplitude[...] = p.amplitude + da
+        f1 = (w * p).field
+        for which, f, c in (('first', f0, c0), ('after-in-place-update', f1, c1)):
+            e, _ = ox.ring_field(spec[c['id']]['obs'][0], N)
+            ctx.case(('reuse', c['id']), nontrivial=True)
+            if f.shape != e.shape or not np.abs(f - e).max() <= 1e-9 * (1 + np.abs(e).sum()):
+                ctx.violation({'kind': 'plane-reused-' + which, 'cls': c['steps'][0]['cls'], 'single_sample_bbox': False},
+                              {'expected': e, 'observed': f}, case={'case': c, 'spec': spec[c['id']]})
+
+
 def run(ctx):
     lentil = import_lentil()
     rng = random.Random(7007 + ctx.seed)
     n = 1500 if ctx.tier == 'quick' else 15000
     cases = [gen_case(rng, ctx.tier) for _ in range(n)]
+    for _ in range(40 if ctx.tier == 'quick' else 300):
+        b = ox.bridging_case(rng)
+        b.update(route='bridging', single=False, conflict=False)
+        cases.append(b)
     for i, c in enumerate(cases):
         c['id'] = i
     spec, results = ox.eval_spec(cases)
@@ -205,6 +248,7 @@ def run(ctx):
     for c in cases:
         check(ctx, lentil, c, spec[c['id']], rng2)
         ctx.case(c['id'], nontrivial=len(c['steps']) > 1 or c['steps'][0]['mask']['k'] != 'none')
+    reuse_checks(ctx, lentil, rng)
     ctx.traces += len(cases)
     ctx.extra.update({'refused_pixelscale_cases': sum(1 for c in cases if c['conflict']),
                       'with_propagation': sum(1 for c in cases if c['route'] == 'pupil-prop'),
